@@ -357,16 +357,24 @@ func emitHist(key string, format string, a ...interface{}) {
 	if len(parts) == 3 {
 		body += " " + parts[2]
 	}
-	if strings.HasPrefix(line, "MERGE ") {
+	if strings.HasPrefix(line, "MERGE ") || strings.HasPrefix(line, "CREATE ") {
 		// MergePatch promises the same JSON value, not the same bytes (new members are
-		// appended in Go map iteration order): compare a canonical rendering
-		if i := strings.Index(body, "=> ok:"); i >= 0 {
+		// appended in Go map iteration order): compare a canonical rendering of its output
+		// (the only observable of MERGE, the second one of CREATE)
+		if i := strings.Index(body, "=> "); i >= 0 {
 			f := strings.Fields(body[i+3:])
-			if b, ok := okBytes(f[0]); ok {
-				if v, err := parseJV(b); err == nil {
-					body = body[:i] + "=> value:" + spell{1, nil}.print(sortKeys(v)) + " " + strings.Join(f[1:], " ")
+			k := 0
+			if strings.HasPrefix(line, "CREATE ") {
+				k = 1
+			}
+			if k < len(f) {
+				if b, ok := okBytes(f[k]); ok {
+					if v, err := parseJV(b); err == nil {
+						f[k] = "value:" + spell{1, nil}.print(sortKeys(v))
+					}
 				}
 			}
+			body = body[:i+3] + strings.Join(f, " ")
 		}
 	}
 	histMu.Lock()
